@@ -100,6 +100,19 @@ def _rows_match(out, src, k, i, cols, shift_cols, shift):
 def selects_between(out, src, lo, hi, shift_cols=(), shift=0):
     """concrete reading of the contract form: is there an increasing map of the rows of `out` into the rows of `src`
     (values equal, shift_cols lowered by shift) that hits every `lo` row and only `hi` rows?"""
+    if not hasattr(src, 'columns'):
+        # two 1-D arrays: one unnamed column each
+        class _One:
+            def __init__(self, a):
+                self.a = np.asarray(a)
+                self.columns = ['v']
+
+            def __getitem__(self, c):
+                return self.a
+
+            def __len__(self):
+                return len(self.a)
+        out, src = _One(out), _One(src)
     if set(out.columns) != set(src.columns):
         return False
     cols = list(src.columns)
@@ -147,6 +160,15 @@ class Evaluator:
     def arrdef(self, n, body):
         return [body(j) for j in range(int(n))]
 
+    strict = False
+
+    def osc3(self, *a, **k):
+        # "the band-passed signal contains three full oscillations": true of the corpus signals the armed job uses; for an
+        # input concretised from a solver model it cannot be established here
+        if Evaluator.strict:
+            raise Skip('osc3 cannot be evaluated concretely')
+        return True
+
     def namespace(self):
         ns = {
             'np': np, 'pd': pd, 'len': len, 'int': int, 'float': float, 'abs': abs, 'isinstance': isinstance,
@@ -159,7 +181,7 @@ class Evaluator:
             'amp_consistency_raw_spec': amp_consistency_raw_spec, 'period_consistency_spec': period_consistency_spec,
             'present': lambda d, k: d is not None and k in d, 'value': lambda d, k: d[k],
             'is_none': lambda v: v is None, 'ncols': lambda f: len(f.columns),
-            'osc3': lambda *a, **k: True, 'selects_between': selects_between, 'selects': selects, 'round': round,
+            'osc3': self.osc3, 'selects_between': selects_between, 'selects': selects, 'round': round,
         }
         try:
             from neurodsp.timefrequency import amp_by_time
@@ -312,10 +334,13 @@ def eval_clause(text, env, old_env):
         return bool(eval(code, {**ns, **penv}))
 
 
-def check_call(fn, args, contract_case, contract_base):
-    """run the real function on concrete arguments and evaluate the contract: returns None or a failure text"""
+def check_call(fn, args, contract_case, contract_base, strict_requires=False):
+    """run the real function on concrete arguments and evaluate the contract: returns None or a failure text.
+    strict_requires (replay of solver models): a precondition that cannot be evaluated concretely makes the whole replay
+    inconclusive ('SKIP ...') instead of being taken as satisfied."""
     import warnings
     warnings.simplefilter('ignore')
+    Evaluator.strict = bool(strict_requires)
     old_env = copy.deepcopy(args)
     env = dict(args)
     raises = dict(contract_base.get('raises', {}))
@@ -326,6 +351,8 @@ def check_call(fn, args, contract_case, contract_base):
             if not eval_clause(r, old_env, old_env):
                 return 'SKIP: requires not satisfied by the concretised input: %s' % r[:80]
         except Skip:
+            if strict_requires:
+                return 'SKIP: a precondition cannot be evaluated concretely: %s' % r[:80]
             continue
         except Exception as e:
             return 'SKIP: requires not evaluable (%r)' % (e,)
@@ -370,8 +397,8 @@ def check_call(fn, args, contract_case, contract_base):
     for k, e in enumerate(ens):
         try:
             ok = eval_clause(e, env, old_env)
-        except (Skip, NameError):
-            continue                       # (a form the concrete evaluator does not know is a gap of the evaluator, not a finding)
+        except (Skip, NameError, AttributeError, TypeError):
+            continue                       # (a form / value the concrete evaluator cannot handle is a gap of the evaluator, not a finding)
         except Exception as ex:
             return 'ensures#%d not evaluable on the real result (%r): %s' % (k + 1, ex, e[:80])
         if not ok:
